@@ -493,16 +493,26 @@ class Verifier(Engine):
         st.loop_entry = outer_entry
         return outs + after
 
+    enum_start: Any = 0
+
     def bind_loop_target(self, target: ast.expr, elem: V, idx_mode: str, i: Any) -> dict[str, V]:
         if idx_mode == "enumerate":
             assert isinstance(target, ast.Tuple)
-            out = self.bind_target(target.elts[0], V(i, INT))
+            out = self.bind_target(target.elts[0], V(i + self.enum_start, INT))
             out.update(self.bind_target(target.elts[1], elem))
             return out
         return self.bind_target(target, elem)
 
     def iter_value(self, it: ast.expr, st: State) -> tuple[V, str]:
         if isinstance(it, ast.Call) and isinstance(it.func, ast.Name) and it.func.id == "enumerate":
+            start: Any = z3.IntVal(0)
+            if len(it.args) > 1:
+                start = self.coerce(self.expr(it.args[1], st), INT).t
+            for kw in it.keywords:
+                if kw.arg != "start":
+                    raise Unsupported("enumerate keyword", it)
+                start = self.coerce(self.expr(kw.value, st), INT).t
+            self.enum_start = start
             return self.as_seq(self.expr(it.args[0], st), st), "enumerate"
         if isinstance(it, ast.Call) and isinstance(it.func, ast.Name) and it.func.id == "range":
             raise Unsupported("for over range (use while)", it)
